@@ -174,9 +174,9 @@ def run_c12(pid, spec, res, st, tier, seed, helpers):
         errs.append(('missing file named on stdin', ['-f', '-'], missing.encode()))
         errs.append(('empty stdin', ['-'], b''))
         errs.append(('non-UTF-8 stdin', ['-'], b'ab\xff\xfe\n'))
-        errs.append(('zero repetitions', ['a', '--min-repetitions', '0'], None))
-        errs.append(('zero substring length', ['a', '--min-substring-length', '0'], None))
-        errs.append(('surrogates without escape', ['a', '--with-surrogates'], None))
+        errs.append(('zero repetitions', ['--min-repetitions', '0', 'a'], None))
+        errs.append(('zero substring length', ['--min-substring-length', '0', 'a'], None))
+        errs.append(('surrogates without escape', ['--with-surrogates', 'a'], None))
         for name, args, inp in errs:
             rc, out, err = run_cli(args, inp)
             runs += 1
